@@ -406,11 +406,35 @@ def check_mapper(ctx, theorem, use_pred, n_quick, n_thorough):
             mm = model_hmap(mrep[1][2])
             if mm != hm:
                 ctx.counts['mapper_layer_disagreements'] += 1
+                found = search_pairs(ctx, L, use_pred) if (wf and L.case.consistent) else None
+                if found is not None:
+                    ctx.violation(found[2][0], {'case': case_json(L.case), 'pair': [found[0], found[1]], 'failures': found[2],
+                                                'found_by': 'targeted search over all lineage pairs after a mapper-layer disagreement'})
+                    continue
                 ctx.violation('mapper layer: model and implementation disagree; %s no longer tied to the code' % theorem,
                               {'case': case_json(L.case), 'pair': [A, D], 'layer': 'mapper', 'theorem': theorem,
                                'impl': repr(hm)[:1500], 'model': repr(mm)[:1500]}, no_input=True)
             else:
                 ctx.counts['mapper_layer_agree'] += 1
+
+
+def search_pairs(ctx, L, use_pred):
+    """after a broken correspondence: look for a concrete failing pair among ALL lineage pairs of the case"""
+    gs = genomes_of(L)
+    ps = sorted(gs.keys(), key=lambda p: (len(p), p))
+    for a in ps:
+        for d in ps:
+            if not is_anc(a, d):
+                continue
+            ctx.counts['targeted_search_pairs'] += 1
+            try:
+                vm = L.ham.compare_genomes_vertically(gs[a], gs[d])
+                bad = use_pred(L, a, d, impl_hmap(L, vm.map), vm)
+            except Exception as e:  # noqa
+                bad = ['vertical comparison raised %s' % type(e).__name__]
+            if bad:
+                return (a, d, bad)
+    return None
 
 
 def check_C05(ctx):
@@ -619,7 +643,12 @@ def check_C08(ctx):
                     bad.append('lateral compares other genomes than the pair minus the reference')
                 gs2 = genomes_of(impl_refresh(L))
                 for g in lat['desc']:
-                    vm = L.ham.compare_genomes_vertically(gs2[mr], gs2[g])
+                    try:
+                        vm = L.ham.compare_genomes_vertically(gs2[mr], gs2[g])
+                    except Exception as e:  # noqa
+                        bad.append('lateral compares a genome (%s) that cannot be compared vertically with the reference: %s'
+                                   % (list(g), type(e).__name__))
+                        continue
                     hm = impl_hmap(L, vm.map)
                     if sorted(k for k, v in lat['loss'] if g in v) != hm['loss']:
                         bad.append('lateral lost set of a genome differs from its vertical comparison')
@@ -637,8 +666,11 @@ def check_C08(ctx):
             m_maps = sorted((P(g), model_hmap(hm)) for g, hm in rep[1])
             i_maps = []
             gs2 = genomes_of(impl_refresh(L))
-            for g in lats[0]['desc']:
-                i_maps.append((g, impl_hmap(L, L.ham.compare_genomes_vertically(gs2[m_anc], gs2[g]).map)))
+            try:
+                for g in lats[0]['desc']:
+                    i_maps.append((g, impl_hmap(L, L.ham.compare_genomes_vertically(gs2[m_anc], gs2[g]).map)))
+            except Exception as e:  # noqa
+                i_maps = [('error', type(e).__name__)]
             if m_anc != lats[0]['anc'] or m_maps != sorted(i_maps):
                 ctx.violation('mapper layer (lateral): model and implementation disagree; props/C08.v: c08_lateral no longer tied to the code',
                               {'case': case_json(L.case), 'pair': [p1, p2], 'layer': 'mapper'}, no_input=True)
@@ -1352,7 +1384,10 @@ def check_C19(ctx):
             if dict(h._properties) != props:
                 bad.append('group %s: properties %r, file says %r' % (gid, dict(h._properties), props))
             for k, v in props.items():
-                if h[k] != v:
+                try:
+                    if h[k] != v:
+                        bad.append('group %s: property %s has another value' % (gid, k))
+                except KeyError:
                     bad.append('group %s: property %s not retrievable' % (gid, k))
             for k, v in scores.items():
                 try:
